@@ -81,6 +81,8 @@ def run(ctx):
     with open(f"{out}/c15.model", "w") as fh:
         fh.write(mo)
     impl, model, cases = _read(f"{out}/c15.impl"), _read(f"{out}/c15.model"), _read(f"{out}/c15.cases")
+    # one description per driver line (base, generic path, alteration[, second], detail) for reading a disagreement
+    desc = _read(f"{out}/c15.desc") if os.path.exists(f"{out}/c15.desc") else []
     while model and model[-1] == "":
         model.pop()
     disagreements = 0
@@ -105,6 +107,7 @@ def run(ctx):
                 violations.append({"class": "model-disagreement",
                                    "what": f"correspondence {corr} no longer checks: impl={a!r} model={b!r}",
                                    "replay": {"correspondence": corr, "case_line": case,
+                                              "alteration": desc[k] if k < len(desc) else None,
                                               "first_difference": [a, b]},
                                    "no_input": True})
     hist = dict(rep["hist"])
@@ -114,7 +117,7 @@ def run(ctx):
                    "process under catch_unwind and an address-space limit) per structurally altered input; alterations = "
                    "ALL single alterations found by a generic walk over the serialised (proof, companion data, parameters) of "
                    "9 honest bases (3 uni, 2 circuit-prover batch, 3 generic batch of plain AIRs + the uni cap-height-1 variant) (every list shortened by one / lengthened by one / emptied; every count, degree, size and "
-                   "parameter integer set to 0, v-1, v+1, 28, 63, 64, usize::MAX (log_arity: ..7, 8, 255; degree_bits: +26, 27); "
+                   "parameter integer set to 0, v-1, v+1, 28, 63, 64, usize::MAX (log_arity: ..7, 8, 255; degree_bits: +26, 27, 29..32); "
                    "every optional part removed or added; booleans flipped) + seeded pairs of alterations; mutants the typed "
                    "proof cannot hold (fixed-size digests / extension elements) are counted as unrepresentable and not "
                    "evaluated; distinct = distinct (base, generic path, alteration[, second alteration]) keys, each of which "
@@ -144,15 +147,26 @@ CHECK = {
         "P3R.C15.run_append", "P3R.C15.run_err_of_must_prefix", "P3R.C15.fri_pow_mismatch_err",
         "P3R.C15.fri_height_overflow_err", "P3R.C15.open_input_height_err", "P3R.C15.uni_pow_mismatch_err",
         "P3R.C15.uni_pow_mismatch_outcome",
-        "P3R.Witness.C15.degree_bits_panics", "P3R.Witness.C15.log_arity_panics",
+        # after /repo ca07f07 (F9a part), fc0321f (F9d), 069da9d (F9e), c030fca (F9i), 0e5036a (C07-F4)
+        "P3R.C15.run_err_of_guarded_prefix", "P3R.C15.capChecks_allErr", "P3R.C15.openInputChecks_allErr",
+        "P3R.C15.commitPhaseChecks_allErr", "P3R.C15.queryScheduleChecks_allErr",
+        "P3R.C15.friVerifyChecks_partial_steps", "P3R.C15.fri_no_panic", "P3R.C15.fri_err_of_failing_step",
+        "P3R.C15.fri_height_above_two_adicity_err", "P3R.C15.fri_sibling_mismatch_err",
+        "P3R.C15.fri_log_arity_out_of_range_err", "P3R.C15.open_input_bad_cap_err",
+        "P3R.C15.uni_degree_out_of_range_err", "P3R.C15.uni_prefix_panic_iff", "P3R.C15.panicGuards_iff",
+        "P3R.C15.uni_no_panic",
+        "P3R.Witness.C15.degree_bits_panics", "P3R.Witness.C15.degree_bits_out_of_range_rejected",
+        "P3R.Witness.C15.degree_bits_64_record",
+        "P3R.Witness.C15.log_arity_out_of_range_rejected", "P3R.Witness.C15.log_arity_record",
         "P3R.Witness.C15.pow_witnesses_short_rejected", "P3R.Witness.C15.pow_witnesses_short_record",
         "P3R.Witness.C15.commit_extra_rejected", "P3R.Witness.C15.commit_extra_record",
         "P3R.Witness.C15.log_final_poly_len_max_rejected", "P3R.Witness.C15.schedule_too_short_rejected",
         "P3R.Witness.C15.schedule_too_short_record", "P3R.Witness.C15.degree_bits_plus1_rejected",
         "P3R.Witness.C15.degree_bits_plus1_record",
         "P3R.Witness.C15.domain_below_cap_panics",
-        "P3R.Witness.C15.cap_empty_panics", "P3R.Witness.C15.cap_not_pow2_panics",
-        "P3R.Witness.C15.prep_short_panics", "P3R.Witness.C15.log_blowup_panics",
+        "P3R.Witness.C15.cap_empty_rejected", "P3R.Witness.C15.cap_not_pow2_rejected", "P3R.Witness.C15.cap_record",
+        "P3R.Witness.C15.prep_short_panics", "P3R.Witness.C15.log_blowup_28_rejected",
+        "P3R.Witness.C15.log_blowup_28_record", "P3R.Witness.C15.zero_phase_accepted",
         "P3R.Witness.C15.query_dropped_accepted", "P3R.Witness.C15.cap_resized_accepted",
         "P3R.Witness.C15.witnesses_falsify_guards",
         # batch path (Model/BatchShape.lean)
@@ -165,9 +179,12 @@ CHECK = {
         "P3R.C15Batch.p3PanicGuards_iff",
         "P3R.C15Batch.batch_terminals_mismatch_err", "P3R.C15Batch.batch_instances_mismatch_err",
         "P3R.C15Batch.p3_instances_mismatch_err", "P3R.C15Batch.honest_batch_shapes_ok",
-        "P3R.Witness.C15Batch.degree_bits_panics", "P3R.Witness.C15Batch.quotient_domain_panics",
-        "P3R.Witness.C15Batch.air_eval_panics", "P3R.Witness.C15Batch.log_arity_panics",
-        "P3R.Witness.C15Batch.cap_panics", "P3R.Witness.C15Batch.log_blowup_panics",
+        "P3R.C15Batch.batchChecks_partial_steps", "P3R.C15Batch.batchPanicGuards_iff", "P3R.C15Batch.batch_no_panic",
+        "P3R.C15Batch.batch_degree_out_of_range_err",
+        "P3R.Witness.C15Batch.degree_bits_panics", "P3R.Witness.C15Batch.degree_bits_out_of_range_rejected",
+        "P3R.Witness.C15Batch.quotient_domain_panics",
+        "P3R.Witness.C15Batch.air_eval_panics", "P3R.Witness.C15Batch.log_arity_rejected",
+        "P3R.Witness.C15Batch.cap_rejected", "P3R.Witness.C15Batch.log_blowup_rejected",
         "P3R.Witness.C15Batch.airs_build_panics", "P3R.Witness.C15Batch.query_dropped_accepted",
         "P3R.Witness.C15Batch.cap_resized_accepted", "P3R.Witness.C15Batch.free_degree_accepted",
         "P3R.Witness.C15Batch.pinned_degree_rejected", "P3R.Witness.C15Batch.terminals_short_rejected",
@@ -180,8 +197,9 @@ CHECK = {
         "the shape vector extracted by the harness (harness/src/c15_shape.rs) is the builder-visible shape of the mutant: "
         "lengths / counts / options read from the same serialised input the typed proof is deserialised from",
         "environment constants of the model (usize = 64 bits with overflow checks as in the dev profile the harness is built "
-        "in, BabyBear bits = 31, two-adicity = 27, allocation bound 2^26 targets) are parameters of the theorems and "
-        "fixed only in the driver lines",
+        "in, BabyBear bits = 31, two-adicity = 27) are parameters of the theorems and fixed only in the driver lines "
+        "(the allocation bound 2^26 targets is still printed but no step reads it since /repo fc0321f: no allocation size is "
+        "computed from a prover-supplied integer any more)",
         "batch path: the AIR facts of the batch model's environment (width, opens_trace_next, declares_interactions(pre_w), "
         "get_log_num_quotient_chunks(pre_w, lookups[i])) are what the real RecursiveAir methods return for the mutant's common "
         "data, called by the harness under catch_unwind (harness/src/c15_batch.rs; `-` = the AIR's eval panics); for the "
@@ -202,13 +220,20 @@ CHECK = {
         "environment Boolean npoEntriesOk); `degree_bits[i]` of an instance without preprocessed metadata is the prover's "
         "declared trace height (native validate_degree_bits accepts every in-range value), so an accepted change of it is "
         "the well-formed circuit for that height and not a violation (counted in the histogram); a pinned one is",
-        "fixes C15-1/2/3 applied: F9b, F9c, F9j, F9k, F9l, F9o (and the overflow part of F9i, the degree+1 part of F9a) are "
-        "repaired; their corpus cases are regression cases (expect_outcome = err) and a return is a VIOLATION "
-        "(class regression:<id>, plus the unlisted panic class, plus a model disagreement for the modelled ones)",
+        "fixes C15-1/2/3 and /repo ca07f07, fc0321f, 069da9d, c030fca, 0e5036a applied: F9b, F9c, F9d, F9e, F9i, F9j, F9k, F9l, "
+        "F9o, F9p and the shift / bit-width part of F9a (F9a-1) are repaired; their corpus cases are regression cases "
+        "(expect_outcome = err; C07-F4: a proof shape without fold phase must be accepted, expect_outcome = ok different) and "
+        "a return of the old behaviour is a VIOLATION (class regression:<id>, plus the unlisted panic class, plus a model "
+        "disagreement for the modelled ones)",
+        "F9a is only partly repaired: a crash on an altered degree_bits is the known finding only when it is the unwrap() "
+        "inside a PCS domain constructor and the largest declared degree_bits lies in TWO_ADICITY-1 ..= Val::bits() (class "
+        "panic:degree_bits:above-two-adicity-within-field-bits, harness/src/c15.rs panic_class; the bases have "
+        "log_quotient_degree <= 1, so this is TWO_ADICITY < degree_bits + log_quotient_degree <= Val::bits()); every other "
+        "crash there keeps the class panic:degree_bits, which no known finding matches",
         "full statements are still false: the negations are proved on concrete shape vectors (P3R.Witness.C15) and every "
         "witness is replayed on the real builders each run (corpus/c15); the _partial theorems carry the decidable "
-        "hypothesis PanicGuards (no-panic) and additionally quantify the accepted family (any query count >= 1, any "
-        "power-of-two cap sizes) in uni_ok_validated",
+        "hypothesis PanicGuards (no-panic; proved equal to three arithmetic facts by panicGuards_iff / batchPanicGuards_iff) "
+        "and additionally quantify the accepted family (any query count >= 1, any power-of-two cap sizes) in uni_ok_validated",
     ],
 }
 
@@ -227,13 +252,17 @@ MANIFEST_ENTRY = {
         "text": "for every shape vector and environment: accepted => every validated component has its expected value "
                 "(uni-STARK + FRI + MMCS caps), no panic under the explicit guard hypothesis, well-formed shapes accepted; the "
                 "full statements (never panics / every malformed shape rejected) are refuted on concrete witnesses replayed on "
-                "the real code (10 known findings with fixes C15-1/2/3 applied; the repaired ones are proved rejected "
-                "for every shape: fri_pow_mismatch_err, fri_height_overflow_err, open_input_height_err); model tied to the Rust by outcome-exact comparison on every single "
+                "the real code (6 known findings left: F9a narrowed to the two-adicity window, F9f, F9g, F9h, F9m, F9n; the "
+                "repaired ones are proved rejected for every shape: fri_pow_mismatch_err, fri_height_overflow_err, "
+                "open_input_height_err, fri_sibling_mismatch_err, fri_log_arity_out_of_range_err, open_input_bad_cap_err, "
+                "fri_height_above_two_adicity_err, uni_degree_out_of_range_err, batch_degree_out_of_range_err; the guard "
+                "hypothesis is proved to be exactly three arithmetic facts (panicGuards_iff, batchPanicGuards_iff) and the FRI + "
+                "MMCS part to have a single partial step left (fri_no_panic)); model tied to the Rust by outcome-exact comparison on every single "
                 "alteration of 3 uni bases and on seeded pairs; batch path modelled (Model/BatchShape.lean: verify_p3_batch_proof_circuit "
                 "metadata validation + allocate + verify_batch_circuit, generic in the AIRs' facts): accepted => instance / degree / "
                 "terminal / lookup / metadata counts equal the AIR count, every per-instance opening has its expected length, "
                 "preprocessed metadata pins matrix index, width and degree, every named zip has equal sides (batch_ok_*), no panic "
-                "under BatchPanicGuards (each guard shown necessary by a witness), F9j/F9k/F9l proved rejected for every shape, conversely "
+                "under BatchPanicGuards (each guard shown necessary by a witness), F9j/F9k/F9l and the repaired part of F9a proved rejected for every shape, conversely "
                 "every shape with the expected STARK-layer components whose PCS part passes is accepted (batch_wellformed_accepted), honest "
                 "shapes accepted; tied to the Rust by outcome-exact comparison on every single alteration of 5 batch bases "
                 "(2 circuit-prover, 3 generic: 1/2/4 instances, with/without preprocessed data, lookups, next-row opening) and on pairs",
